@@ -13,8 +13,8 @@ RULE = ("one case = (method, direction, dense flag, event mix incl. simultaneous
         "direction; non-trivial = >=1 reported event; distinct by (method,direction,dense,event mix,seed)")
 ASSUMPTIONS = ["true roots with |dg/dt| below 5% of the function's scale (tangential) and pairs of true roots closer than the location tolerance are excluded",
                "root location tolerance in t: K*(dy*|s||grad h|/|dg/dt| + max(4eps(1+|t|), ulp(t))) with dy = node error + h^4 max|y''''|/384, K=10"]
-FLOORS = {"quick": {"events_checked": 150, "events_backward": 50, "events_nodense": 50, "steps_with_two_events": 3, "boundary_root_events": 6, "events_on_small_steps": 12, "events_on_tiny_steps": 4, "boundary_root_events_sharing_a_step": 30, "multileg_legs": 40, "multileg_events": 40, "events_on_a_call_boundary": 15, "events_of_extreme_scale": 20},
-          "thorough": {"events_checked": 1500, "events_backward": 500, "events_nodense": 500, "steps_with_two_events": 30, "boundary_root_events": 60, "events_on_small_steps": 150, "events_on_tiny_steps": 20, "boundary_root_events_sharing_a_step": 150, "multileg_legs": 200, "multileg_events": 200, "events_on_a_call_boundary": 100, "events_of_extreme_scale": 100}}
+FLOORS = {"quick": {"events_checked": 150, "events_backward": 50, "events_nodense": 50, "steps_with_two_events": 3, "boundary_root_events": 6, "events_on_small_steps": 12, "events_on_tiny_steps": 4, "boundary_root_events_sharing_a_step": 30, "multileg_legs": 40, "multileg_events": 40, "events_on_a_call_boundary": 15, "events_of_extreme_scale": 20, "events_with_the_root_on_a_recorded_row_state_dependent": 25},
+          "thorough": {"events_checked": 1500, "events_backward": 500, "events_nodense": 500, "steps_with_two_events": 30, "boundary_root_events": 60, "events_on_small_steps": 150, "events_on_tiny_steps": 20, "boundary_root_events_sharing_a_step": 150, "multileg_legs": 200, "multileg_events": 200, "events_on_a_call_boundary": 100, "events_of_extreme_scale": 100, "events_with_the_root_on_a_recorded_row_state_dependent": 100}}
 QUICK_METHODS = ["RK45CKSolver", "DOPRI45", "RK4Solver", "EulerSolver", "RK8713MSolver", "ABAs5o6HSolver", "SymplecticEulerSolver",
                  "BackwardEuler", "RadauIIA5", "GaussLegendre4", "MidpointSolver", "RK108Solver"]
 CASE_TIMEOUT = 900
@@ -74,6 +74,16 @@ def gen_cases(tier, seed):
                                   nsteps=32.0, nev=3, pseed=int(rng.integers(1 << 30)), cost=3))
                 cases.append(dict(kind="boundary", shared=True, method=name, direction=d, dense=dense, t0=0.0 if d > 0 else 2.0, tf=2.0 if d > 0 else 0.0,
                                   nsteps=32.0, nev=6, pseed=int(rng.integers(1 << 30)), cost=4))
+    # STATE-dependent events whose level is bit-exactly the value at a recorded row of an event-free reference run (g == 0.0 on a step boundary):
+    # one-sided requests of both senses and sign-flipped twins - the crossing passes the direction filter only in the sense it really crosses
+    rngb = rng_for(703, seed)
+    for name in (["RK4Solver", "RK45CKSolver", "DOPRI45", "ABAs5o6HSolver", "RK8713MSolver", "GaussLegendre4"] if tier == "quick" else [n for n in names if M[n]["order"] >= 3]):
+        for d in (1, -1):
+            for r in range(2 if tier == "quick" else 4):
+                L = float(rngb.uniform(2.0, 4.0))
+                t0 = float(rngb.uniform(-3, 3))
+                cases.append(dict(kind="row_root", method=name, direction=d, dense=bool(rngb.random() < 0.5), t0=t0, tf=t0 + d * L, nsteps=float(rngb.uniform(20, 40)),
+                                  nev=4, pseed=int(rngb.integers(1 << 30)), cost=(3 if M[name]["explicit"] else 16)))
     # the span is covered by 2-3 calls that monitor the SAME event function objects; between the calls their `direction` attribute is changed
     # (and the list is passed again, as the same or as a new list object): every call must honour the attributes in force when it is made
     for name in (["RK4Solver", "RK45CKSolver", "RK8713MSolver", "ABAs5o6HSolver", "RadauIIA5"] if tier == "quick" else [n for n in names if M[n]["order"] >= 3]):
@@ -226,6 +236,22 @@ def run_case(spec):
             for c, side in ((0.5, -1), (1.0, +1), (1.5, -1)):
                 evspecs.append({"kind": "time", "scale": float(10 ** rng.uniform(-3, 3)) * float(rng.choice([-1, 1])), "c": c + side * d * hstep * float(rng.uniform(0.2, 0.8)),
                                 "direction": 0, "terminal": False})
+    elif spec["kind"] == "row_root":
+        dtq = dtype_of(spec.get("dtype", "float64"))
+        ref_ = sysrun.make_system(lambda t, y, **kw: prob.rhs(t, y), prob.ystar(t0).astype(dtq), t0, tf, dtq.type(abs(tf - t0) / spec["nsteps"]), info["cls"], rtol=1e-6, atol=1e-8)
+        sysrun.call_integrate(ref_, max_steps=20000)
+        yr = np.asarray(ref_.y)
+        rows = [int(k) for k in rng.choice(np.arange(2, max(3, len(yr) - 2)), size=min(2, max(1, len(yr) - 4)), replace=False)] if len(yr) > 5 else []
+        for k in rows:
+            i_ = int(rng.integers(dim))
+            sc_ = float(10 ** rng.uniform(-3, 3))
+            dr_ = int(rng.choice([-1, 1]))
+            for s_ in (sc_, -sc_):
+                evspecs.append({"kind": "component", "i": i_, "scale": s_, "c": float(yr[k, i_]), "direction": dr_, "terminal": False})
+        if not evspecs:
+            rec0 = util.Rec(sig="rowroot-none")
+            rec0.skipped = "reference run too short"
+            return rec0.out()
     elif spec["kind"] == "smallstep":
         e1 = random_event_spec(rng, prob, t0, tf, dim, terminal=False, kinds=["dstate"])
         e1["direction"] = int(rng.choice([-1, 1]))
@@ -339,6 +365,8 @@ def run_case(spec):
                 rec.bump("boundary_root_events")
                 if spec.get("shared"):
                     rec.bump("boundary_root_events_sharing_a_step")
+            if spec["kind"] == "row_root":
+                rec.bump("events_with_the_root_on_a_recorded_row_state_dependent")
             if spec["kind"] == "smallstep":
                 rec.bump("events_on_small_steps")
                 if spec.get("fixed_h", 1.0) < 1e-4:
